@@ -44,6 +44,9 @@ pub enum Form {
     /// device updates (inverter, gear train, axle, differential): every state a device writes is stamped with the newest
     /// contributing read - through C08's driver and reference; only its timestamp verdicts are C03's business
     Device,
+    /// command relay in device updates (a selection): what a terminal reads afterwards carries the newest timestamp present
+    /// - through C13's driver; only its timestamp verdict is reported here
+    DeviceCommands,
 }
 #[derive(Clone, Debug, Serialize, Deserialize)]
 pub struct Scenario {
@@ -56,6 +59,8 @@ pub struct Scenario {
     pub stream: Option<c02::Scenario>,
     #[serde(default)]
     pub device: Option<crate::c08::Scenario>,
+    #[serde(default)]
+    pub chain: Option<crate::c13::Scenario>,
 }
 
 fn pd(k: u8) -> PositionDerivative {
@@ -193,7 +198,7 @@ fn exec_bin(s: &Scenario, payload: Payload, rhs: Rhs, op: u8, assign: bool) -> O
 }
 
 pub fn bin_forms() -> Vec<Form> {
-    let probe = Scenario { t1: 0, t2: 1, a: 1.0, b: 2.0, k: 0, form: Form::NotBool, stream: None, device: None };
+    let probe = Scenario { t1: 0, t2: 1, a: 1.0, b: 2.0, k: 0, form: Form::NotBool, stream: None, device: None, chain: None };
     let mut v = Vec::new();
     for payload in [Payload::F32, Payload::Quantity, Payload::State, Payload::Command] {
         for rhs in [Rhs::Datum, Rhs::Scalar, Rhs::DatumF32, Rhs::ScalarF32] {
@@ -350,6 +355,14 @@ pub fn check(s: &Scenario) -> CheckResult {
             let r = c02::check_with(inner, "C03/stream")?;
             return Ok(CaseInfo::new(true, r.key).class("stream timestamp rule"));
         }
+        Form::DeviceCommands => {
+            let inner = s.chain.as_ref().expect("chain scenario");
+            return match crate::c13::check(inner) {
+                Err(v) if v.key.ends_with("relay-time") => Err(Violation::new(format!("C03/device/{}", v.key.trim_start_matches("C13/")), v.message)),
+                Err(_) => Ok(CaseInfo::new(false, 0)),
+                Ok(info) => Ok(CaseInfo::new(info.nontrivial, info.key ^ 0xC0).class("device command relay timestamp rule")),
+            };
+        }
         Form::Device => {
             let inner = s.device.as_ref().expect("device scenario");
             return match crate::c08::check(inner) {
@@ -390,12 +403,13 @@ impl Property for C03 {
     fn strategy(_tier: Tier) -> BoxedStrategy<Scenario> {
         let mut forms = bin_forms();
         forms.extend(other_forms());
-        let direct = (time_pair(), gen::moderate(), gen::moderate_nonzero(), 0u8..3, proptest::sample::select(forms)).prop_map(|((t1, t2), a, b, k, form)| Scenario { t1, t2, a, b, k, form, stream: None, device: None });
+        let direct = (time_pair(), gen::moderate(), gen::moderate_nonzero(), 0u8..3, proptest::sample::select(forms)).prop_map(|((t1, t2), a, b, k, form)| Scenario { t1, t2, a, b, k, form, stream: None, device: None, chain: None });
         let times = prop_oneof![3 => proptest::sample::select(GRID.to_vec()), 2 => any::<i64>(), 2 => -3i64..3].boxed();
         let kinds = vec![c02::SK::SumN, c02::SK::Sum2, c02::SK::ProductN, c02::SK::Product2, c02::SK::Difference, c02::SK::Quotient, c02::SK::Exponent, c02::SK::And, c02::SK::Or, c02::SK::Not, c02::SK::LatestN, c02::SK::DeMorgan];
-        let streams = c02::scenario_strategy(times, kinds).prop_map(|inner| Scenario { t1: 0, t2: 0, a: 0.0, b: 0.0, k: 0, form: Form::Stream, stream: Some(inner), device: None });
-        let devices = <crate::c08::C08 as Property>::strategy(_tier).prop_map(|inner| Scenario { t1: 0, t2: 0, a: 0.0, b: 0.0, k: 0, form: Form::Device, stream: None, device: Some(inner) });
-        prop_oneof![6 => direct, 4 => streams, 1 => devices].boxed()
+        let streams = c02::scenario_strategy(times, kinds).prop_map(|inner| Scenario { t1: 0, t2: 0, a: 0.0, b: 0.0, k: 0, form: Form::Stream, stream: Some(inner), device: None, chain: None });
+        let devices = <crate::c08::C08 as Property>::strategy(_tier).prop_map(|inner| Scenario { t1: 0, t2: 0, a: 0.0, b: 0.0, k: 0, form: Form::Device, stream: None, device: Some(inner), chain: None });
+        let chains = <crate::c13::C13 as Property>::strategy(_tier).prop_map(|inner| Scenario { t1: 0, t2: 0, a: 0.0, b: 0.0, k: 0, form: Form::DeviceCommands, stream: None, device: None, chain: Some(inner) });
+        prop_oneof![12 => direct, 8 => streams, 2 => devices, 1 => chains].boxed()
     }
     fn cases(tier: Tier) -> u32 {
         tier.pick(80_000, 1_200_000)
@@ -409,7 +423,7 @@ impl Property for C03 {
             for &t2 in &GRID {
                 for &form in &forms {
                     for k in 0..3u8 {
-                        sink(Scenario { t1, t2, a: 1.5 + k as f32, b: -0.75, k, form, stream: None, device: None });
+                        sink(Scenario { t1, t2, a: 1.5 + k as f32, b: -0.75, k, form, stream: None, device: None, chain: None });
                         n += 1;
                     }
                 }
